@@ -181,6 +181,46 @@ CHECKS = [
           "statistics is a consequence of determinism of float operations on one platform, not separately proved. "
           "Wall-clock use in the start/stop waits and the clock-based default seed are allow-listed with reasons.",
   "technique": "effect contracts: syntactic determinism-effect check over the call closure (ground obligations) + SMT lemma on id renumbering"},
+ {"property_id": "C11",
+  "text": "Counter, tally and weighted-tally families (EventBasedCounter/Tally/WeightedTally, SimCounter/SimTally/SimWeightedTally): "
+          "register/initialize/notify/_fire_events and the constructors are verified against contracts over the C09 representation invariants and the C08 producer view: "
+          "notify of a subscribed data event = exactly one register of the payload, WARMUP = initialize (n = 0, all earlier "
+          "observations forgotten), any other event = nothing changes; every operation keeps the invariant, so the getters "
+          "(C09 contracts) report the plain statistic of the observations since the last warm-up; lemma: [data, WARMUP, data] leaves "
+          "exactly the last observation; lemma: a MAX_PRIORITY warm-up event precedes every lower-priority event of the same time "
+          "(C01 order). Construction: subscribed to the simulator's WARMUP_EVENT, data types = {DATA_EVENT}, registered in the model "
+          "under its key (DSOLModel.add/get_output_statistic contracts + lemma: retrievable). Published values: ground obligation "
+          "over all seven _fire_events functions -- every payload expression is literally the documented query call, in the documented "
+          "order -- plus proved _fire_events contracts (queries total under the invariant, statistic unchanged by publication). "
+          "Without listeners the event-based statistics change only their own accumulators (nohavoc obligations).",
+  "design_ref": "DESIGN.md section 6 C11 and Part II section 15",
+  "note": COMMON_NOTE + " NOT covered by proof (stated scope): EventBasedTimestampWeightedTally / SimPersistent notify and constructor "
+          "(end_observations at END_REPLICATION, time average to the replication end) -- only their _fire_events publication table "
+          "and the bounded sweep of C06 cover them; listen_to; that the simulator schedules the warm-up with maximum priority and fires END_REPLICATION after setting "
+          "the clock (C06/C04 territory). Assumed (CB-stat): listeners of a statistic's own events do not call that statistic's "
+          "mutators from inside notify; producers keep PWF across callbacks (C08); Event/TimedEvent fields and the statistic's key/"
+          "simulator are constructor-only (frame scan obligation).",
+  "technique": "deductive verification: dispatch contracts over representation invariants, callback frame assumptions, syntactic publication table; z3"},
+ {"property_id": "C06",
+  "text": "DEVSSimulator.initialize, Simulator.initialize, Simulator.cleanup and EventListHeap.clear are verified against contracts whose "
+          "postconditions are the property statement: clock = replication start, run/replication state INITIALIZED, new run thread "
+          "object, replication and model recorded; at the call of construct_model (ghost assertions) the event list is empty, the "
+          "clock already at the start, the model's statistics map empty (this obligation failed before the fix 7c62f5f) and -- for a "
+          "simulator that had been initialised before -- the listener table empty; exactly one warm-up entry of MAX_PRIORITY at the "
+          "warm-up time is added on top of what the model scheduled (whole-list postcondition); refusal while running raises DSOLError "
+          "with no field of any existing object changed (checked before the event list is cleared). construct_model and the initial "
+          "methods are callbacks with the simulator rely condition. The postconditions are functions of the arguments only, i.e. "
+          "independent of the prior history. BOUNDED stand-in (not counted as proved) for the composed statement 'second replication "
+          "== the same replication on a brand-new simulator and model': native sweep over generated seeded model programs x "
+          "histories {fresh, initialised, stepped, paused, ended, paused by a failing handler} comparing trace, clock, statistics, "
+          "pending events and notification stream, with an absolute warm-up oracle for the statistics.",
+  "design_ref": "DESIGN.md section 6 C06 and Part II section 15",
+  "note": COMMON_NOTE + " Identical event sequences / statistics of two replications is the composition of this canonical start "
+          "state with determinism (C07) and the functional contracts C01/C02/C08/C12 -- the composition is meta-theory plus the "
+          "bounded sweep, not an SMT obligation. Threading (worker thread creation, wake-up, wall-clock waits) is assumed not to touch "
+          "simulator state. One known finding (listed): statistics of the previous replication stay subscribed to a producer that "
+          "outlives the replication (model that is its own data producer + SimPersistent).",
+  "technique": "deductive verification: postconditions from the statement + ghost assertions at the callback into the model; bounded native differential sweep as stand-in for the composition; z3"},
 ]
 _claimed = {c["property_id"] for c in CHECKS}
 NOT_APPLICABLE = [
